@@ -229,14 +229,23 @@ theorem opt_term_map_congr (g : Option (Term β)) (σ τ : β → BN β)
     simp only [Option.map_some, Option.some.injEq]
     exact term_map_congr x σ τ (fun b hb => h b (by rw [hb]))
 
+/-- the per-graph fact both exports provide (`graph_strong`, `graph_strongV`) -/
+def GraphStrong (T : List (Triple β)) (opts : Opts) (res : Option (List (Resource β))) : Prop :=
+  ∃ (rs : List (Resource β)) (W : List (Triple β)) (al : List β),
+    res = some rs ∧ W.Perm T ∧ al.Nodup ∧
+    (∀ b ∈ al, anonymizedIn T opts b = true) ∧
+    (∀ n, (newTriplesList rs n).2 = n + al.length) ∧
+    (∀ n (σ : β → BN β), al.map σ = (List.range' n al.length).map BN.fresh →
+        (∀ t ∈ T, ∀ b ∈ tripleNodes t, b ∉ al → σ b = BN.orig b) →
+        (newTriplesList rs n).1 = W.map (Triple.map σ))
+
 /-- the per-graph results combined over a list of graph names -/
-theorem dataset_good (Q : List (DQuad β)) (opts : Opts) (sord : Option (Term β) → List (Term β))
-    (hac : opts.inline = true → ∀ g, Acyclic1 (graphTriples Q g)) (hsh : NoSharedAnonymized Q opts) :
+theorem dataset_good (Q : List (DQuad β)) (opts : Opts)
+    (expG : Option (Term β) → Option (List (Resource β))) (hsh : NoSharedAnonymized Q opts) :
     ∀ gs : List (Option (Term β)), gs.Nodup →
-      (∀ g ∈ gs, (sord g).Perm ((dbuild Q).builder g).subjects) →
+      (∀ g ∈ gs, GraphStrong (graphTriples Q g) opts (expG g)) →
       ∃ (rss : List (List (DResource β))) (WQ : List (DQuad β)) (al : List β),
-        mapOpt (fun g => (((dbuild Q).builder g).exportResources opts (sord g) (Q.length + 1)).map
-          (fun rs => rs.map (fun r => (g, r)))) gs = some rss ∧
+        mapOpt (fun g => (expG g).map (fun rs => rs.map (fun r => (g, r)))) gs = some rss ∧
         WQ.Perm (gs.flatMap (fun g => (graphTriples Q g).map (mkQ g))) ∧
         al.Nodup ∧
         (∀ b ∈ al, ∃ g ∈ gs, anonymizedIn (graphTriples Q g) opts b = true) ∧
@@ -256,11 +265,7 @@ theorem dataset_good (Q : List (DQuad β)) (opts : Opts) (sord : Option (Term β
     rw [List.nodup_cons] at hn
     obtain ⟨rss', WQ', al', hrss', hp', hnd', han', hc', hi'⟩ :=
       ih hn.2 (fun g' hg' => hs g' (by simp [hg']))
-    have hsg := hs g (by simp)
-    rw [builder_dbuild] at hsg
-    obtain ⟨rs, W, alg, hrs, hpW, hndg, hang, hcg, hig⟩ :=
-      graph_strong (graphTriples Q g) opts (sord g) hsg (fun hi => hac hi g) (Q.length + 1)
-        (by have := graphTriples_length_le Q g; omega)
+    obtain ⟨rs, W, alg, hrs, hpW, hndg, hang, hcg, hig⟩ := hs g (by simp)
     -- disjointness of the allocation lists
     have hdisj : ∀ b, b ∈ alg → b ∈ al' → False := by
       intro b hb hb'
@@ -270,7 +275,7 @@ theorem dataset_good (Q : List (DQuad β)) (opts : Opts) (sord : Option (Term β
       exact shared_contra Q opts hsh g g' hne b (hang b hb) t' ht' hbt'
     refine ⟨rs.map (fun r => (g, r)) :: rss', W.map (mkQ g) ++ WQ', alg ++ al', ?_, ?_, ?_, ?_, ?_, ?_⟩
     · refine mapOpt_cons_some.2 ⟨_, _, ?_, hrss', rfl⟩
-      rw [builder_dbuild, hrs]; rfl
+      rw [hrs]; rfl
     · simp only [List.flatMap_cons]
       exact List.Perm.append (hpW.map _) hp'
     · rw [List.nodup_append]
@@ -318,18 +323,17 @@ theorem dataset_good (Q : List (DQuad β)) (opts : Opts) (sord : Option (Term β
       congr 1
       exact (opt_term_map_congr g σ BN.orig hfg.2).symm
 
-/-- C17 for datasets. -/
-theorem dataset_flatten_export (Q : List (DQuad β)) (opts : Opts) (gord : List (Option (Term β)))
-    (sord : Option (Term β) → List (Term β))
+/-- datasets, generic in the per-graph export -/
+theorem dataset_iso (Q : List (DQuad β)) (opts : Opts) (gord : List (Option (Term β)))
+    (expG : Option (Term β) → Option (List (Resource β)))
     (hg : gord.Perm (dbuild Q).graphNames)
-    (hs : ∀ g ∈ gord, (sord g).Perm ((dbuild Q).builder g).subjects)
-    (hac : opts.inline = true → ∀ g, Acyclic1 (graphTriples Q g))
+    (hs : ∀ g ∈ gord, GraphStrong (graphTriples Q g) opts (expG g))
     (hsh : NoSharedAnonymized Q opts) (n : Nat) :
-    ∃ rs, (dbuild Q).exportResources opts gord sord (Q.length + 1) = some rs ∧
+    ∃ rs, (mapOpt (fun g => (expG g).map (fun rs => rs.map (fun r => (g, r)))) gord).map List.flatten = some rs ∧
       Spec.IsoQ (newQuadsList rs n).1 Q := by
   have hn : gord.Nodup := (hg.nodup_iff).2 (graphNames_dbuild_nodup Q)
-  obtain ⟨rss, WQ, al, hrss, hp, hnd, han, _, hi⟩ := dataset_good Q opts sord hac hsh gord hn hs
-  refine ⟨rss.flatten, by simp [DBuilder.exportResources, hrss], sigmaOf al n, sigmaOf_injective al n, ?_⟩
+  obtain ⟨rss, WQ, al, hrss, hp, hnd, han, _, hi⟩ := dataset_good Q opts expG hsh gord hn hs
+  refine ⟨rss.flatten, by simp [hrss], sigmaOf al n, sigmaOf_injective al n, ?_⟩
   have hall : ∀ q ∈ Q, q.g ∈ gord := fun q hq => hg.mem_iff.2 ((mem_graphNames_dbuild Q q.g).2 ⟨q, hq, rfl⟩)
   rw [hi n (sigmaOf al n) (sigmaOf_map al n hnd)]
   · exact (hp.trans (quads_group_perm Q gord hn hall)).map _
@@ -343,5 +347,22 @@ theorem dataset_flatten_export (Q : List (DQuad β)) (opts : Opts) (gord : List 
     obtain ⟨q, hq, hqg, rfl⟩ := mem_graphTriples.1 ht
     obtain ⟨q', hq', hqg'⟩ := (mem_graphNames_dbuild Q g).1 (hg.mem_iff.1 hgm)
     exact (hsh q hq b hbt (by rw [hqg]; exact ha')).2 q' hq' (by rw [hqg', hgb])
+
+/-- C17 for datasets (export as it is before the patch). -/
+theorem dataset_flatten_export (Q : List (DQuad β)) (opts : Opts) (gord : List (Option (Term β)))
+    (sord : Option (Term β) → List (Term β))
+    (hg : gord.Perm (dbuild Q).graphNames)
+    (hs : ∀ g ∈ gord, (sord g).Perm ((dbuild Q).builder g).subjects)
+    (hac : opts.inline = true → ∀ g, Acyclic1 (graphTriples Q g))
+    (hsh : NoSharedAnonymized Q opts) (n : Nat) :
+    ∃ rs, (dbuild Q).exportResources opts gord sord (Q.length + 1) = some rs ∧
+      Spec.IsoQ (newQuadsList rs n).1 Q := by
+  apply dataset_iso Q opts gord
+    (fun g => ((dbuild Q).builder g).exportResources opts (sord g) (Q.length + 1)) hg _ hsh n
+  intro g hgm
+  have hsg := hs g hgm
+  rw [builder_dbuild] at hsg ⊢
+  exact graph_strong (graphTriples Q g) opts (sord g) hsg (fun hi => hac hi g) (Q.length + 1)
+    (by have := graphTriples_length_le Q g; omega)
 
 end RdfModel.Proofs.C17
